@@ -665,10 +665,11 @@ def host_selfref_subprocess(ctx):
     elif rc != 0:
         ctx.violation("the harness process failed (exit %d) on %s without a stack overflow" % (rc, HOST_SELF_DESC), replay)
     else:
+        # no crash: an error from Encode is a legitimate answer for this value; a wrong round trip is the same defect
         for f in oracles:
-            if f[2] == "0":
+            if f[2] == "0" and f[1] != "encode-failed":
                 ctx.violation("implementation violates C07 oracle %s on %s" % (f[1], HOST_SELF_DESC),
-                              dict(replay, oracle=f[1], result=res.get(0)), key=KNOWN_HOST_CYCLE if f[1] == "encode-failed" else None)
+                              dict(replay, oracle=f[1], result=res.get(0)), key=KNOWN_HOST_CYCLE)
 
 
 def run_inner(ctx):
